@@ -21,6 +21,30 @@ CAST = {
 }
 
 
+def takeover_then_failure():
+    """A subscribed session on node 2 is displaced by a session of the same client id on node 1 and has not noticed yet (it would
+    at its next PINGREQ) when node 2 fails: its subscriptions name a dead node and belong to no listed session - they must go."""
+    out = []
+    for nsubs in (1, 2):
+        for newsub in (False, True):
+            for other in (False, True):
+                ops = [{"op": "connect", "c": 8, "n": 1, "client": "pub8", "user": "", "ka": 60000},
+                       {"op": "connect", "c": 1, "n": 2, "client": "same", "ka": 10},
+                       {"op": "sub", "c": 1, "id": 4, "fs": [{"f": ["x", "#"], "q": 1}] + ([{"f": ["x", "y"], "q": 0}] if nsubs == 2 else [])}]
+                if other:
+                    ops += [{"op": "connect", "c": 3, "n": 2, "client": "bystander", "ka": 10},
+                            {"op": "sub", "c": 3, "id": 4, "fs": [{"f": ["x", "+"], "q": 0}]}]
+                ops += [{"op": "connect", "c": 2, "n": 1, "client": "same", "ka": 10}]
+                if newsub:
+                    ops.append({"op": "sub", "c": 2, "id": 5, "fs": [{"f": ["x", "y"], "q": 1}]})
+                ops += [{"op": "peerfail", "n": 2, "ms": 3300},
+                        {"op": "send", "c": 2, "kind": "PINGREQ"},
+                        {"op": "pub", "c": 8, "t": ["x", "y"], "p": "after", "q": 1, "id": 7},
+                        {"op": "quiesce"}]
+                out.append({"nodes": [1, 2], "ops": ops})
+    return out
+
+
 def check(run):
     thorough = run.tier == "thorough"
     run.model_check("MC_Session", "MC_Session_cleanup.cfg")
@@ -66,6 +90,7 @@ def check(run):
                 h2.append({"op": "ping", "c": 1, "x": ""})
         scns.append(sessionlib.build(h2, CAST))
         nlong += 1
+    scns += takeover_then_failure()
     # the audit sink is a side channel: a share of the scripts runs with it unreachable on every node
     for i, s in enumerate(scns):
         if i % 6 == 5:
@@ -85,7 +110,7 @@ def check(run):
                 "keep-alives (max 3 per script, at any position incl. right after CONNECT) / DISCONNECT / close / malformed packet / second CONNECT / "
                 "publish, sampled evenly; plus scripts with a hosting-node failure (real 3.3 s purge wait); plus long-lived single-connection walks of 14 "
                 "steps with >= 5 idle periods of 0.5 / 0.95 keep-alives each followed by a PINGREQ; one scenario in six with the audit sink "
-                "unreachable; every scenario ends with a probe of all nodes"
+                "unreachable; 8 schedules in which a displaced, still subscribed session's node fails before the session notices; every scenario ends with a probe of all nodes"
                 % (6 if thorough else 5),
         "events_validated": nev, "trace_spec_states": tstates, "rejections": len(rejected),
         "samples": [first_idle[0] if first_idle else hs[0], rest[len(rest) // 2], {"scenario": scns[-1]}],
